@@ -26,6 +26,11 @@ func DeriveRFC4226Wasm(secret []byte, counter uint64, digits int, algo Algorithm
 		return "", ErrUnsupportedAlgorithm
 	}
 
+	// same range as the native derivation: mod10 covers 1..10 digits
+	if digits < 1 || digits >= len(mod10) {
+		return "", ErrInvalidCodeLength
+	}
+
 	var buf [8]byte
 	binary.BigEndian.PutUint64(buf[:], counter)
 
